@@ -558,3 +558,139 @@ def run_fault(tier, seed):
 
 
 CHECKS['C12'] = lambda tier, seed: run_fault(tier, seed)
+
+
+# =============================================================================================
+# C11: byte-position fault enumeration on closed databases
+# =============================================================================================
+def table_regions(data):
+    """offset -> region name, from the independent table reader."""
+    sys_path = os.path.join(c.HARNESS, 'proj')
+    import sys
+    if sys_path not in sys.path: sys.path.insert(0, sys_path)
+    import sstable
+    regs = []
+    try:
+        t = sstable.read_table(data)
+    except Exception:
+        return lambda off: 'table'
+    for i, b in enumerate(t['blocks']):
+        regs.append((b['offset'], b['offset'] + b['size'], 'data_payload'))
+        regs.append((b['offset'] + b['size'], b['offset'] + b['size'] + 1, 'data_trailer_type'))
+        regs.append((b['offset'] + b['size'] + 1, b['offset'] + b['size'] + 5, 'data_trailer_crc'))
+    if t['filter']:
+        regs.append((t['filter']['offset'], t['filter']['offset'] + t['filter']['size'] + 5, 'filter'))
+    regs.append((t['meta_handle'][0], t['meta_handle'][0] + t['meta_handle'][1] + 5, 'metaindex'))
+    regs.append((t['index_handle'][0], t['index_handle'][0] + t['index_handle'][1] + 5, 'index'))
+    regs.append((len(data) - 48, len(data) - 8, 'footer_handles'))
+    regs.append((len(data) - 8, len(data), 'footer_magic'))
+
+    def f(off):
+        for a, b, n in regs:
+            if a <= off < b: return n
+        return 'table_other'
+    return f
+
+
+def run_c11(tier, seed):
+    prop = 'C11'
+    t0 = time.time(); out = Outcome(prop); quick = tier == 'quick'; rng = random.Random(seed)
+    lib = c.build_lib(); exe = c.build_driver('crash', lib)
+    total = dict(databases=0, probes=0, distinct_outcomes=0, tv_states=0, per_region={})
+    samples = []
+    dbs = [(seed * 1000 + 1, 0x300 | 0x8), (seed * 1000 + 2, 0x400)] if quick else [(seed * 1000 + i, b) for i, b in enumerate([0x308, 0x400, 0x108, 0x200, 0xb08, 0x000])]
+    for (wseed, bits) in dbs:
+        if out.full(): break
+        d = c.scratch('cor'); j = os.path.join(d, 'journal'); dbdir = os.path.join(d, 'db')
+        p = c.sh([exe, 'record', str(wseed), dbdir, j, str(bits), '16', '1'], timeout=120, env={'CRASH_SMALL': '1'})
+        if p.returncode != 0: raise Broken('corruption baseline build failed: %s' % p.stderr[-300:])
+        batches = {}
+        for text in marks_of(j):
+            w = text.split(' ')
+            if w[0] == 'begin': batches[int(w[1])] = dict(sync=int(w[2]), ops=parse_ops_desc(w[3] if len(w) > 3 else ''))
+        nb = max(batches)
+        bat = [dict(sync=batches[b]['sync'], ops=batches[b]['ops']) for b in range(1, nb + 1)]
+        files = {}
+        for fn in sorted(os.listdir(dbdir)):
+            kind, num = di.classify(fn)
+            if kind in ('table', 'log', 'manifest', 'current'):
+                files[fn] = (kind, open(os.path.join(dbdir, fn), 'rb').read())
+        # mutations
+        muts = []
+        for fn, (kind, data) in files.items():
+            reg = table_regions(data) if kind == 'table' else (lambda off, k=kind: k)
+            n = len(data)
+            offs = list(range(n)) if not quick else sorted(set(rng.sample(range(n), min(n, 140)) + list(range(max(0, n - 48), n)) + list(range(0, min(n, 16)))))
+            for off in offs:
+                alts = [('bit', 1 << rng.randint(0, 7)), ('set', 0x00), ('set', 0xFF)] if quick else [('bit', 1 << b) for b in range(8)] + [('set', 0x00), ('set', 0xFF)]
+                for a in alts: muts.append((fn, kind, reg(off), off, a[0], a[1]))
+                if not quick or off % 7 == 0: muts.append((fn, kind, reg(off), off, 'trunc', 0))
+                if off % 512 == 0: muts.append((fn, kind, reg(off), off, 'zero512', 0))
+
+        def probe(m):
+            fn, kind, region, off, alt, val = m
+            dd = c.scratch('cp'); tgt = os.path.join(dd, 'db'); os.makedirs(tgt)
+            for f2, (k2, data2) in files.items():
+                dat = data2
+                if f2 == fn:
+                    b = bytearray(data2)
+                    if alt == 'bit': b[off] ^= val
+                    elif alt == 'set':
+                        if b[off] == val: c.rmtree(dd); return None     # no change
+                        b[off] = val
+                    elif alt == 'trunc': b = b[:off]
+                    elif alt == 'zero512':
+                        if all(x == 0 for x in b[off:off + 512]): c.rmtree(dd); return None
+                        b[off:off + 512] = b'\0' * len(b[off:off + 512])
+                    dat = bytes(b)
+                open(os.path.join(tgt, f2), 'wb').write(dat)
+            outp = os.path.join(dd, 'o.json')
+            pr = c.sh([exe, 'recover', tgt, outp, str(bits), '0'], timeout=60, env={'CRASH_PROBE': '1'})
+            res = None
+            if getattr(pr, 'timed_out', False): res = dict(hang=1)
+            elif pr.returncode != 0: res = dict(crash=pr.returncode)
+            else:
+                try: res = json.load(open(outp))
+                except Exception: res = dict(crash=-1)
+            c.rmtree(dd)
+            return m, res
+        results = [r for r in c.pmap(probe, muts, c.NCPU) if r is not None]
+        total['databases'] += 1; total['probes'] += len(results)
+        lines = [dict(e='meta', batches=bat)]
+        seen = set()
+        for (fn, kind, region, off, alt, val), res in results:
+            key = '%s/%s' % (region, alt); total['per_region'][key] = total['per_region'].get(key, 0) + 1
+            if 'hang' in res or 'crash' in res:
+                rd = c.replay_dir(prop, 'corrupt'); json.dump(dict(kind='corrupt', workload=dict(seed=wseed, bits=bits), file=fn, region=region, offset=off, alt=alt, val=val, why=res), open(os.path.join(rd, 'replay.json'), 'w'))
+                out.violation('reading a database with %s damaged at offset %d (%s %s) %s' % (fn, off, alt, val, 'hung' if 'hang' in res else 'crashed'), rd, dict(kind='corrupt_abort'))
+                continue
+            ev = dict(e='probe', kind=kind, file=fn, region=region, off=off, alt=alt, rc=res.get('rc', 0), markers=res.get('markers', []), data=res.get('data', []),
+                      status=res.get('status', 0), bad=res.get('bad', 0), gets=res.get('gets', []), bwd=res.get('bwd', []), bwdstatus=res.get('bwdstatus', 0))
+            sig = json.dumps([kind, ev['rc'], ev['markers'], ev['data'], ev['status'], ev['bad'], ev['gets'], ev['bwd'], ev['bwdstatus']])
+            if sig in seen: continue      # identical outcome vector: same verdict by construction
+            seen.add(sig); lines.append(ev)
+        total['distinct_outcomes'] += len(lines) - 1
+        td = c.scratch('ctv'); tp = os.path.join(td, 't.ndjson')
+        with open(tp, 'w') as f:
+            for ln in lines: f.write(json.dumps(ln, separators=(',', ':')) + '\n')
+        r = c.trace_validate('CorruptTrace', 'CorruptTrace.cfg', tp, timeout=1200, heap='4g', header_lines=1)
+        total['tv_states'] += r['res'].distinct
+        if not r['accepted']:
+            bad = lines[r['prefix']] if r['prefix'] is not None and r['prefix'] < len(lines) else None
+            rd = c.replay_dir(prop, 'corrupt'); shutil.copy(tp, os.path.join(rd, 'trace.ndjson'))
+            json.dump(dict(kind='corrupt', workload=dict(seed=wseed, bits=bits), event=bad), open(os.path.join(rd, 'replay.json'), 'w'), indent=1)
+            out.violation('CorruptTrace: wrong answer after damage: %s' % json.dumps(bad)[:400], rd, dict(kind='corrupt', file_kind=(bad or {}).get('kind')))
+        if len(samples) < 2 and len(lines) > 5:
+            samples.append(dict(files={k: len(v[1]) for k, v in files.items()}, probe=lines[len(lines) // 2]))
+        c.rmtree(d); c.rmtree(td)
+    rc = out.finish()
+    cov = dict(evaluations=total['probes'], distinct_nontrivial=total['distinct_outcomes'],
+               rule='one probe per (file, byte offset, alteration: bit flip / 0x00 / 0xFF / truncation / zeroed 512 B sector) of a closed database; distinct = distinct outcome vectors (open status, lookups, forward and backward scans) actually validated by TLC',
+               samples=samples or [{}], states=max(1, total['tv_states']), transitions=max(1, total['tv_states']), traces_validated_against_impl=total['probes'], totals=total, exhaustive=not quick)
+    c.write_evidence(prop, tier, seed, 'fault_enumeration', cov, time.time() - t0, violations=len(out.violations),
+                     assumptions=['thin oracle: truth = fold of all batches of the cleanly closed database; an error status is always acceptable',
+                                  'paranoid_checks and verify_checksums are on in every probe'])
+    return rc
+
+
+CHECKS['C11'] = run_c11
